@@ -43,6 +43,8 @@ Ltac inv_words :=
 
 Section Refine.
   Variable jd2 : code -> Z -> bool.
+  Variable hash : list Z -> Z.
+  Variable E : env.
   Variable P : params.
   Variable c : code.
   Variable input : list Z.
@@ -58,7 +60,7 @@ Section Refine.
   Qed.
 
   Lemma exec_refine k opc st : Forall word (s_stk st) ->
-    exec impl_op valid_jumpdest c input k opc st = exec spec_op jd2 c input k opc st.
+    exec impl_op valid_jumpdest hash E c input k opc st = exec spec_op jd2 hash E c input k opc st.
   Proof.
     intros Hw. destruct k; cbn [exec]; try reflexivity;
       destruct (s_stk st) as [|a [|b [|d r]]]; try reflexivity; inv_words;
@@ -66,23 +68,23 @@ Section Refine.
   Qed.
 
   Lemma exec_words k opc st st' : Forall word (s_stk st) ->
-    exec spec_op jd2 c input k opc st = Next st' -> Forall word (s_stk st').
+    exec spec_op jd2 hash E c input k opc st = Next st' -> Forall word (s_stk st').
   Proof.
     intros Hw. destruct k; cbn [exec];
       try (lazymatch goal with
            | |- context [set_nth] =>
-               destruct (s_stk st) as [|t r] eqn:Es; intros E; [discriminate|];
-               apply Next_inj in E; rewrite <- E; cbn [s_stk upd];
+               destruct (s_stk st) as [|t r] eqn:Es; intros HE; [discriminate|];
+               apply Next_inj in HE; rewrite <- HE; cbn [s_stk upd];
                apply set_nth_words; [constructor; [apply znth_word; assumption|inv_words; assumption]|inv_words; assumption]
            end; fail 1);
       try (destruct (s_stk st) as [|a [|b [|d r]]] eqn:Es);
       repeat match goal with |- context [if ?b then _ else _] => destruct b end;
-      intros E; try discriminate; apply Next_inj in E; rewrite <- E; cbn [s_stk upd]; inv_words;
+      intros HE; try discriminate; apply Next_inj in HE; rewrite <- HE; cbn [s_stk upd]; inv_words;
       repeat first [assumption | apply wpush_words | constructor | apply znth_word | rewrite Es ].
   Qed.
 
   Lemma step_refine st : Forall word (s_stk st) ->
-    step impl_op valid_jumpdest P c input st = step spec_op jd2 P c input st.
+    step impl_op valid_jumpdest hash E P c input st = step spec_op jd2 hash E P c input st.
   Proof.
     intros Hw. unfold step.
     repeat match goal with
@@ -94,7 +96,7 @@ Section Refine.
       repeat match goal with
              | |- context [match ?x with _ => _ end] =>
                  lazymatch x with
-                 | exec _ _ _ _ _ _ _ => fail
+                 | exec _ _ _ _ _ _ _ _ _ => fail
                  | context [match _ with _ => _ end] => fail
                  | _ => destruct x
                  end
@@ -102,14 +104,14 @@ Section Refine.
   Qed.
 
   Lemma step_words st st' : Forall word (s_stk st) ->
-    step spec_op jd2 P c input st = Next st' -> Forall word (s_stk st').
+    step spec_op jd2 hash E P c input st = Next st' -> Forall word (s_stk st').
   Proof.
     intros Hw H. unfold step in H. cbv zeta in H.
     set (k := decode _) in H.
     repeat match type of H with
            | context [match ?x with _ => _ end] =>
                lazymatch x with
-               | exec _ _ _ _ _ _ _ => fail
+               | exec _ _ _ _ _ _ _ _ _ => fail
                | context [match _ with _ => _ end] => fail
                | _ => destruct x
                end
@@ -118,28 +120,28 @@ Section Refine.
   Qed.
 
   Lemma run_refine fuel : forall st, Forall word (s_stk st) ->
-    run impl_op valid_jumpdest P c input fuel st = run spec_op jd2 P c input fuel st.
+    run impl_op valid_jumpdest hash E P c input fuel st = run spec_op jd2 hash E P c input fuel st.
   Proof.
     induction fuel as [|n IH]; intros st Hw; [reflexivity|].
     cbn [run]. rewrite step_refine by assumption.
-    destruct (step spec_op jd2 P c input st) eqn:E; [|reflexivity].
+    destruct (step spec_op jd2 hash E P c input st) eqn:Est; [|reflexivity].
     apply IH. eapply step_words; eassumption.
   Qed.
 
 End Refine.
 
-Theorem machine_refines jd2 P c input :
+Theorem machine_refines jd2 hash E P c input :
   clen c <= U64 ->
   (forall d, 0 <= d -> (jd2 c d = true <-> d < clen c /\ cnth c d = 91 /\ boundary c d)) ->
   forall fuel gas,
-    call impl_op valid_jumpdest P c input fuel gas = call spec_op jd2 P c input fuel gas.
+    call impl_op valid_jumpdest hash E P c input fuel gas = call spec_op jd2 hash E P c input fuel gas.
 Proof.
   intros Hlen Hjd fuel gas. unfold call.
-  destruct c eqn:E; [reflexivity|]. rewrite <- E in *.
+  destruct c eqn:Ec; [reflexivity|]. rewrite <- Ec in *.
   apply run_refine; [assumption|assumption|constructor].
 Qed.
 
 (* the specification run keeps every stack slot a 256-bit word (the invariant used above) *)
-Theorem spec_step_keeps_words jd2 P c input st st' :
-  Forall word (s_stk st) -> step spec_op jd2 P c input st = Next st' -> Forall word (s_stk st').
+Theorem spec_step_keeps_words jd2 hash E P c input st st' :
+  Forall word (s_stk st) -> step spec_op jd2 hash E P c input st = Next st' -> Forall word (s_stk st').
 Proof. apply step_words. Qed.
